@@ -286,10 +286,14 @@ def FDD_mpe(
     for sel_fn in tqdm(sel_freq):
         # Frequency bandwidth where the peak is searched
         lim = (sel_fn - DF, sel_fn + DF)
+        # the lines inside the band, both limits included (a limit that falls on a line up to rounding counts as on the line)
+        tol = 1e-9 * (freq[1] - freq[0])
         idxlim = (
-            np.argmin(np.abs(freq - lim[0])),
-            np.argmin(np.abs(freq - lim[1])),
-        )  # Indices of the limits
+            np.searchsorted(freq, lim[0] - tol, side="left"),
+            np.searchsorted(freq, lim[1] + tol, side="right"),
+        )  # first line of the band, one past its last line
+        if idxlim[1] <= idxlim[0]:  # no line inside: the line next to the selected frequency
+            idxlim = (np.argmin(np.abs(freq - sel_fn)), np.argmin(np.abs(freq - sel_fn)) + 1)
         # Ratios between the first and second singular value
         diffS1S2 = Sval[0, 0, idxlim[0] : idxlim[1]] / Sval[1, 1, idxlim[0] : idxlim[1]]
         maxDiffS1S2 = np.max(diffS1S2)  # Looking for the maximum difference
